@@ -102,7 +102,16 @@ pub fn convert_node(ast: &ASTTy, imp: &mut Imports, state: &State, ctx: &Context
         NodeTy::Bool { lit } => Core::Bool { boolean: *lit },
 
         NodeTy::Tuple { elements } if state.tup_lit => Core::TupleLiteral {
-            elements: convert_vec(elements, imp, state, ctx)?,
+            // only the outermost tuple of a target is written without parentheses
+            elements: convert_vec(
+                elements,
+                imp,
+                &State {
+                    tup_lit: false,
+                    ..state.clone()
+                },
+                ctx,
+            )?,
         },
         NodeTy::Tuple { elements } => Core::Tuple {
             elements: convert_vec(elements, imp, state, ctx)?,
